@@ -235,6 +235,10 @@ def expected_values(assignment):
     return exp, eff_id
 
 
+CLIENT_ATTRS = [("url", "url"), ("user", "userid"), ("clientuid", "clientuid"), ("org", "org"), ("fid", "fid"), ("version", "version"), ("appid", "appid"), ("appver", "appver"),
+                ("language", "language"), ("pretty", "prettyprint"), ("unclosedelements", "close_elements"), ("bankid", "bankid"), ("brokerid", "brokerid"), ("useragent", "useragent")]
+
+
 def prec_work(chunk):
     env = Env()
     t = Tally()
@@ -261,7 +265,36 @@ def prec_work(chunk):
                     t.fail(f"C18|precedence|{opt}|winner-should-be-{winner}|wrong-value", case, f"{label}: {opt} = {got!r}, expected {want!r}")
                     break
             else:
-                t.outcome("prec-ok")
+                # ... and that value is the one the script acts on: the client it builds from the merged settings
+                try:
+                    with contextlib.redirect_stdout(io.StringIO()), warnings.catch_warnings():
+                        warnings.simplefilter("ignore")
+                        cl = og.init_client(args)
+                except BaseException as e:
+                    if isinstance(e, ValueError) and args.get("unclosedelements") and args.get("version", 0) >= 200:
+                        t.outcome("prec-ok-combination-refused")  # OFXv2 without end tags does not exist: refusing the effective pair is right
+                        continue
+                    t.fail(f"C18|precedence|{'+'.join(sorted(assignment))}|init_client-raises-{type(e).__name__}", case, f"{label}: {type(e).__name__}: {str(e)[:150]}")
+                    continue
+                bad = None
+                for opt, attr in CLIENT_ATTRS:
+                    v = args.get(opt)
+                    if opt == "unclosedelements":
+                        want_attr = not v
+                    elif opt == "pretty":
+                        want_attr = bool(v)
+                    elif v in (None, "", [], 0):
+                        continue  # nothing set anywhere: the client's own default applies
+                    else:
+                        want_attr = v
+                    got_attr = getattr(cl, attr, "<no such attribute>")
+                    if got_attr != want_attr:
+                        bad = (opt, attr, got_attr, want_attr)
+                        break
+                if bad:
+                    t.fail(f"C18|precedence|{bad[0]}|client-built-with-another-value", case, f"{label}: OFXClient.{bad[1]} = {bad[2]!r}, value in effect {bad[3]!r}")
+                else:
+                    t.outcome("prec-ok")
     finally:
         env.close()
     return t
